@@ -1,10 +1,229 @@
+import PdshVerif.Dsh.Signals
 import Driver.Util
 
-/-! engine stub: filled in by the owner of this engine (see FRAMEWORK.md) -/
+/-! engine `sig`: trace acceptor for the projected traces of the `sched` harness with signals (C20).
+
+    init <if|while> <f> <N> <batch 0|1> <clock0> <blind|guarded>     start a new trace; wait construct and form
+                                   of the worker's first state write are probed by behaviour          -> ok
+    st <tc> <R> <P> <X> <ts|->     harness state before a step: threadcount, runnable threads, parked-
+                                   unsignalled threads, threads blocked on something else, t[i].state
+                                   digits (0 NEW 1 RCMD 2 READING 3 DONE 4 FAILED 5 CANCELED)  -> ok | reject ..
+    ev D <createS|lock|wait|wake 0|wake 1|relock|create j|unlock|cancelS|return>
+    ev W<i> <lockT|time|unlockT|connectBegin|connectEnd 0|connectEnd 1|destroyBegin|destroyEnd|lock|signal|unlock>
+    ev Z <sigwait int|sigwait tstp|time v|lockT|fwd h|unlockT|lock|unlock|stop|exit c>
+    ev E <deliver int|deliver tstp|tick v>                                                -> ok | reject ..
+    obs list <i,j,..|->            hosts named by the listing the implementation just printed
+    obs canc <n>                   the number in "Canceled n pending threads"
+    obs path <i> <reading|closing> what worker i does after _update_connect_state
+    obs fwds <i,j,..|->            hosts a signal was forwarded to so far               -> ok | reject ..
+    end <ok|exit c|deadlock|other> ok: dsh() returned; exit c: exit(c) was called; deadlock: nothing enabled
+    After a reject every line up to the next `init` answers `skip`.
+    The transition function is `PdshVerif.Dsh.Sig.step`, the one the theorems are about. -/
 namespace Driver.SigDrv
+open PdshVerif.Dsh.Sig
+open PdshVerif.Dsh.Fan (Variant DPC)
+
+structure Acc where
+  st : Option St := none
+  dead : Bool := false
+
+def parseW (t : String) : Option Nat :=
+  if t.startsWith "W" then (t.drop 1).toNat? else none
+
+def names (t : String) : List String := if t = "-" then [] else t.splitOn ","
+
+def natList (t : String) : Option (List Nat) :=
+  if t = "-" then some [] else (t.splitOn ",").mapM fun x => x.toNat?
+
+def parseSg : String → Option Sg
+  | "int" => some .int
+  | "tstp" => some .tstp
+  | _ => none
+
+def parseLabel : List String → Option Label
+  | ["D", "createS"] => some (.d .createS)
+  | ["D", "lock"] => some (.d .lock)
+  | ["D", "wait"] => some (.d .wait)
+  | ["D", "wake", "0"] => some (.d (.wake false))
+  | ["D", "wake", "1"] => some (.d (.wake true))
+  | ["D", "relock"] => some (.d .relock)
+  | ["D", "create", j] => j.toNat?.map fun j => .d (.create j)
+  | ["D", "unlock"] => some (.d .unlock)
+  | ["D", "cancelS"] => some (.d .cancelS)
+  | ["D", "return"] => some (.d .ret)
+  | ["Z", "sigwait", g] => (parseSg g).map fun g => .s (.sigwait g)
+  | ["Z", "time", v] => v.toNat?.map fun v => .s (.time v)
+  | ["Z", "lockT"] => some (.s .lockT)
+  | ["Z", "fwd", h] => h.toNat?.map fun h => .s (.fwd h)
+  | ["Z", "unlockT"] => some (.s .unlockT)
+  | ["Z", "lock"] => some (.s .lock)
+  | ["Z", "unlock"] => some (.s .unlock)
+  | ["Z", "stop"] => some (.s .stop)
+  | ["Z", "exit", c] => c.toNat?.map fun c => .s (.exit c)
+  | ["E", "deliver", g] => (parseSg g).map fun g => .e (.deliver g)
+  | ["E", "tick", v] => v.toNat?.map fun v => .e (.tick v)
+  | [t, "connectEnd", ok] =>
+    match parseW t with
+    | none => none
+    | some i => if ok = "1" then some (.w i (.connectEnd true)) else if ok = "0" then some (.w i (.connectEnd false)) else none
+  | [t, a] =>
+    match parseW t with
+    | none => none
+    | some i =>
+      match a with
+      | "lockT" => some (.w i .lockT)
+      | "time" => some (.w i .time)
+      | "unlockT" => some (.w i .unlockT)
+      | "connectBegin" => some (.w i .connectBegin)
+      | "destroyBegin" => some (.w i .destroyBegin)
+      | "destroyEnd" => some (.w i .destroyEnd)
+      | "lock" => some (.w i .lock)
+      | "signal" => some (.w i .signal)
+      | "unlock" => some (.w i .unlock)
+      | _ => none
+  | _ => none
+
+def enabledNames (s : St) : List String :=
+  (if dEnabled s then ["D"] else []) ++
+  (((List.range s.ws.length).filter (wEnabled s)).map fun i => s!"W{i}") ++
+  (if sEnabled s then ["Z"] else [])
+
+def showW : WP → String
+  | .idle => "idle" | .started => "started" | .rcmdL => "rcmdL" | .skipL => "skipL" | .ready => "ready" | .connecting => "connecting"
+  | .connOk => "connOk" | .connFail => "connFail" | .updT => "updT" | .updL => "updL" | .reading => "reading" | .closing => "closing"
+  | .resL => "resL" | .flushed => "flushed" | .tearing => "tearing" | .torn => "torn" | .locked => "locked"
+  | .signaled => "signaled" | .done => "done"
+
+def showDPC : DPC → String
+  | .top => "top" | .wait => "wait" | .parked => "parked" | .woken => "woken" | .create => "create"
+  | .unlock => "unlock" | .dtop => "dtop" | .dwait => "dwait" | .dparked => "dparked" | .dwoken => "dwoken"
+  | .dunlock => "dunlock" | .finishing => "finishing" | .returned => "returned"
+
+def showSPC : SPC → String
+  | .off => "off" | .waiting => "waiting" | .intT => "intT" | .intT2 => "intT2" | .listLock => "listLock"
+  | .listing k => s!"listing{k}" | .abLock => "abLock" | .fwding k => s!"fwding{k}" | .exiting => "exiting"
+  | .tstpT => "tstpT" | .stopping => "stopping" | .cancLock => "cancLock" | .cancUnlock => "cancUnlock"
+  | .cancelled => "cancelled"
+
+def showOwn : Own → String
+  | .none => "-" | .d => "D" | .w i => s!"W{i}" | .s => "Z"
+
+def tsDigit : TS → Char
+  | .new => '0' | .rcmd => '1' | .reading => '2' | .done => '3' | .failed => '4' | .canceled => '5'
+
+def showTs (s : St) : String := String.ofList (s.ts.map tsDigit)
+
+def showNats (l : List Nat) : String := if l.isEmpty then "-" else ",".intercalate (l.map toString)
+
+/-- one line, no line breaks (the protocol is line based) -/
+def showSt (s : St) : String :=
+  s!"dpc={showDPC s.dpc} i={s.i} tc={s.tc} own={showOwn s.own} thd={showOwn s.thd} sig={s.sig} " ++
+  s!"ws={",".intercalate (s.ws.map showW)} ts={showTs s} spc={showSPC s.spc} pend={s.pend.length} now={s.now} " ++
+  s!"last={s.last}"
+
+/-- a worker whose next protocol operation is a lock request may be runnable in the implementation on
+    operations the model does not see (time(), poll/read/close/fputs) although the lock is taken -/
+def mayRunUnseen (s : St) (n : String) : Bool :=
+  match parseW n with
+  | none => false
+  | some i =>
+    match s.ws[i]? with
+    | some .started | some .reading | some .closing => true
+    | _ => false
+
+def checkSt (s : St) (tc r p x ts : String) : Option String :=
+  let en := enabledNames s
+  let known := fun (n : String) => n = "D" || n = "Z" || n.startsWith "W"
+  let rs := (names r).filter known
+  let xs := names x
+  let ps := names p
+  if tc.toNat? ≠ some s.tc then some s!"threadcount impl={tc} model={s.tc} ({showSt s})"
+  else if ts ≠ "-" && ts ≠ showTs s then some s!"t[].state impl={ts} model={showTs s} ({showSt s})"
+  else
+    match rs.find? (fun n => !en.contains n && !mayRunUnseen s n) with
+    | some n => some s!"runnable in the implementation but not enabled in the model: {n} ({showSt s})"
+    | none =>
+      match en.find? (fun n => !rs.contains n && !(n != "Z" && xs.contains n)) with
+      | some n => some s!"enabled in the model but not runnable in the implementation: {n} ({showSt s})"
+      | none =>
+        if spuriousEnabled s != ps.contains "D" then
+          some s!"spurious wake-up of D: model={spuriousEnabled s} impl={ps.contains "D"}"
+        else none
+
+def checkObs (s : St) : List String → Option String
+  | ["list", l] =>
+    match natList l with
+    | some l =>
+      -- sent after every unlock of thd_mutex by Z: after `_list_slowthreads` the hosts listed, after
+      -- `_fwd_signal` nothing may have been listed
+      let want := if s.spc = .waiting then s.listed else []
+      if l = want then none else some s!"listing impl={showNats l} model={showNats want}"
+    | none => some "bad obs line"
+  | ["canc", n] => if n.toNat? = some s.ncanc then none else some s!"canceled count impl={n} model={s.ncanc}"
+  | ["path", i, p] =>
+    match i.toNat? with
+    | some i =>
+      let m := match s.ws[i]? with | some w => showW w | none => "?"
+      if m = p then none else some s!"worker {i} after connect: impl={p} model={m}"
+    | none => some "bad obs line"
+  | ["fwds", l] =>
+    match natList l with
+    | some l => if l = s.fwds then none else some s!"forwarded impl={showNats l} model={showNats s.fwds}"
+    | none => some "bad obs line"
+  | _ => some "bad obs line"
+
+def stepLine (a : Acc) (line : String) : Acc × String :=
+  match Driver.words line with
+  | ["init", v, f, n, b, t0, g] =>
+    match f.toNat?, n.toNat?, t0.toNat? with
+    | some f, some n, some t0 =>
+      let v := if v = "if" then Variant.ifWait else Variant.whileWait
+      ({ st := some (init v (g = "guarded") f n (b = "1") t0), dead := false }, "ok")
+    | _, _, _ => (a, "bad-line")
+  | "st" :: rest =>
+    if a.dead then (a, "skip") else
+    match a.st, rest with
+    | some s, [tc, r, p, x, ts] =>
+      match checkSt s tc r p x ts with
+      | none => (a, "ok")
+      | some why => ({ a with dead := true }, "reject " ++ why)
+    | _, _ => (a, "bad-line")
+  | "ev" :: rest =>
+    if a.dead then (a, "skip") else
+    match a.st, parseLabel rest with
+    | some s, some l =>
+      match step s l with
+      | some s' => ({ a with st := some s' }, "ok")
+      | none => ({ a with dead := true }, s!"reject not enabled in the model: {" ".intercalate rest} ({showSt s})")
+    | _, _ => ({ a with dead := true }, "reject unknown event " ++ " ".intercalate rest)
+  | "obs" :: rest =>
+    if a.dead then (a, "skip") else
+    match a.st with
+    | some s =>
+      match checkObs s rest with
+      | none => (a, "ok")
+      | some why => ({ a with dead := true }, "reject " ++ why)
+    | none => (a, "bad-line")
+  | "end" :: status =>
+    if a.dead then (a, "skip") else
+    match a.st with
+    | some s =>
+      match status with
+      | ["ok"] =>
+        if s.dpc = .returned then (a, "ok") else (a, s!"reject run ended but the model is not final ({showSt s})")
+      | ["exit", c] =>
+        if c.toNat?.isSome && c.toNat? = s.exited then (a, "ok")
+        else (a, s!"reject implementation called exit({c}), model: {showSt s} exited={s.exited}")
+      | ["deadlock"] =>
+        if enabledNames s = [] then (a, "ok")
+        else (a, s!"reject implementation deadlocked, model has enabled {enabledNames s}")
+      | _ => (a, "ok")
+    | none => (a, "bad-line")
+  | _ => (a, "bad-line")
 
 def main (_args : List String) : IO UInt32 := do
-  IO.eprintln "engine not implemented"
-  return 2
+  let stdin ← IO.getStdin
+  Driver.forLines stdin ({} : Acc) stepLine
+  return 0
 
 end Driver.SigDrv
